@@ -1,8 +1,8 @@
 """C03 — descriptor handlers run only for kernel-reported conditions, right cookie."""
-from ..core import (AnalysisBroken, canon, strip, norm_cond, forward, root_var)
+from ..core import (AnalysisBroken, canon, strip, norm_cond, forward, root_var, lvalue_steps)
 from ..analyses import (path_to, describe, exits_of, callback_kind, list_empty_test)
-from .. import generic, roles
-from . import c01, h03
+from .. import generic
+from . import h03
 from .h03 import BANDS, ORDER, FD
 
 
@@ -27,8 +27,10 @@ def run(ctx):
     ctx.section(ready_bits)
     ctx.section(lambda c: generic.init_complete(c, 'R-C03c', kinds={'iv_fd_'}))
     ctx.section(tokens)
-    ctx.rule('R-C03e', 'no kernel registration outlives unregister: unregistering synchronously removes the descriptor from the kernel set '
-                       'unless nothing is registered there (shared with C01 R-C01c; a stale registration delivers events for a reused struct)', floor=2)
+    ctx.rule('R-C03e', 'no kernel registration outlives unregister: at every return of iv_fd_unregister, per poll method, the kernel was told after '
+                       'the last change of wanted_bands unless a branch established that nothing differs, and the descriptor owns no slot of the '
+                       'descriptor array (same demand as C01 R-C01c, decided here for the descriptor kinds only; a stale registration delivers '
+                       'events for a reused struct)', floor=2)
     ctx.section(kernel_registration)
 
 
@@ -186,7 +188,7 @@ def _vor(a, b):
 def ready_bits(ctx):
     prog = ctx.prog
     rts = h03.root_map(prog)
-    linkers = roles.functions_with(prog, h03.is_link)
+    linkers = h03.functions_with(prog, h03.is_link, {(FD, 'list_active')})
     if not linkers:
         raise AnalysisBroken('no function links a descriptor into an active batch')
     # the make-ready operations: smallest root contexts that put a descriptor into a batch
@@ -197,7 +199,7 @@ def ready_bits(ctx):
         raise AnalysisBroken('batch linking code is not reachable from any entry point')
     # ---- who writes the readiness bits ------------------------------------------------------
     wroots = {}
-    for f in roles.functions_with(prog, lambda e: h03.writes_field(e, FD, 'ready_bands')):
+    for f in h03.functions_with(prog, lambda e: h03.writes_field(e, FD, 'ready_bands'), {(FD, 'ready_bands')}):
         wroots.update(h03.nearest_roots(prog, f, rts))
     for q in sorted(wroots):
         r = wroots[q]
@@ -423,7 +425,7 @@ def tokens(ctx):
     mpriv = generic._method_private(prog)
     rts = h03.root_map(prog)
     mk = {}
-    for o in roles.functions_with(prog, h03.is_link):
+    for o in h03.functions_with(prog, h03.is_link, {(FD, 'list_active')}):
         mk.update(h03.nearest_roots(prog, o, rts))
     mknames = {r.name for r in mk.values()}
     mkq = set(mk)
@@ -484,15 +486,64 @@ def _descriptor_sources(g, call):
     return out
 
 
+UNREGISTER = 'iv_fd_unregister'       # exported API
+
+
 def kernel_registration(ctx):
-    import types
-    sub = []
-    proxy = types.SimpleNamespace(prog=ctx.prog, ob=lambda rid, inst, ok, **kw: sub.append((rid, inst, ok, kw)), exempt=lambda *a, **k: None)
-    c01.holders(proxy)
+    """R-C03e for the descriptor kinds only, decided here (the C01 rule R-C01c demands the same of every object kind; a
+    holder of another kind that vanished or changed cannot break these obligations).  Holders are found by type:
+    a descriptor pointer stored as kernel user data; a descriptor pointer stored into an array element."""
+    prog = ctx.prog
+    un = prog.fn(UNREGISTER)
     n = 0
-    for rid, inst, ok, kw in sub:
-        if inst.startswith('holder:kernel') or inst.startswith('holder:slot iv_fd_'):
-            n += 1
-            ctx.ob('R-C03e', inst, ok, **kw)
+    # ---- the kernel's interest set carries the pointer (epoll family) --------------------------------------
+    for t in h03.kernel_tables(prog):
+        g = h03.inline(prog, un, method_table=t, expand_methods=True, prune=True)
+        objs = h03.object_vars(g, un)
+        if not objs:
+            raise AnalysisBroken('%s: no descriptor parameter' % un.name)
+        sts = h03.kernel_synced(g, objs, h03.unknown_code(prog))
+        has_slot = bool(prog.method_tables()[t].get('unregister_fd'))
+        ok = bool(sts) and all(told for (told, _) in sts)
+        n += 1
+        ctx.ob('R-C03e', 'holder:kernel iv_fd_.epoll_event.data.ptr [%s]' % t.replace('iv_fd_poll_method_', ''), ok, loc=un.loc,
+               detail='at every return of %s, after the last change of wanted_bands, the kernel was told (%s) or a branch established '
+                      'registered_bands == wanted_bands (nothing to tell); exit states (told, queued for a deferred update): %s%s'
+                      % (un.name, '/'.join(h03.KERNEL_UPDATES), sorted(sts), '' if has_slot else '; the method has no unregister_fd slot'),
+               fn=un.q)
+    # ---- an array slot holds the pointer (poll family) -------------------------------------------------------
+    for t in sorted(prog.method_tables()):
+        fns = h03.table_functions(prog, t)
+        stores, idxkeys = [], set()
+        for slot, f in fns.items():
+            gs = h03.inlined(prog, f)
+            st = h03.slot_stores(gs)
+            if st:
+                stores += st
+                idxkeys |= h03.slot_index_fields(gs, st)
+        if not stores:
+            continue
+        if not idxkeys:
+            raise AnalysisBroken('%s: index field of the descriptor array slot not found' % t)
+        # the value the index field has while the descriptor owns no slot: what registration leaves there
+        free = set()
+        for slot in ('register_fd',):
+            if slot in fns:
+                for e in h03.inlined(prog, fns[slot]).events():
+                    if e['ev'] == 'store' and e.get('op') == '=' and 'rhs' in e and any(k in idxkeys for k in lvalue_steps(e['lhs'])):
+                        free.add(h03.const_value(e['rhs']))
+        if len(free) != 1 or None in free:
+            raise AnalysisBroken('%s: value of the slot index of a descriptor without a slot not found (register_fd stores %s)' % (t, sorted(map(str, free))))
+        free = free.pop()
+        g = h03.inline(prog, un, method_table=t, expand_methods=True, prune=True)
+        objs = h03.object_vars(g, un)
+        if not objs:
+            raise AnalysisBroken('%s: no descriptor parameter' % un.name)
+        ev_in = h03.index_is(g, objs, idxkeys, free)
+        ok = all(ev_in.get(p, True) for p in h03.exit_points(g))
+        n += 1
+        ctx.ob('R-C03e', 'holder:slot iv_fd_.poll.fds[] [%s]' % t.replace('iv_fd_poll_method_', ''), ok, loc=un.loc,
+               detail='at every return of %s the descriptor owns no slot of the descriptor array (%s == %d stored or implied by a branch; '
+                      '%d is what registration leaves there)' % (un.name, '/'.join(sorted(k[1] for k in idxkeys)), free, free), fn=un.q)
     if n < 2:
-        raise AnalysisBroken('kernel registration holder rules not found')
+        raise AnalysisBroken('no place outside the library\'s lists keeps a descriptor pointer (kernel user data, array slot): discovery failed')
